@@ -127,6 +127,8 @@ def run_accessor(c):
     if op == "whitsvc":
         if c.get("lc") is not None:
             kw["lc"] = xr.DataArray(np.array([[np.nan if v is None else v for v in row] for row in c["lc"]], dtype="float64"), dims=("y", "x"))
+            if c.get("lc_order"):
+                kw["lc"] = kw["lc"].transpose(*c["lc_order"])
         if c.get("srange") is not None:
             kw["srange"] = np.array(c["srange"], dtype="float64")
         if c.get("p") is not None:
